@@ -1753,11 +1753,15 @@ events_cfg(sim_config *cfg, Params *p)
 	cfg->conn_delay_max_ns = cd == 0 ? 0 : cd == 1 ? 200000 : cd == 2 ? 5000000 : 80000000;
 	long ae = p->draw("accepterr", 0, 4);
 	cfg->accept_err_p = ae <= 2 ? 0 : ae == 3 ? 0.1 : 0.3;
+	// now and then a unix-domain connect finds the listener's backlog full (EAGAIN): a failed dial like any other
+	cfg->unix_backlog_full_p = p->draw("backlogfull", 0, 3) == 3 ? 0.25 : 0;
 	cfg->max_steps    = 1200000;
 	cfg->max_virtual_ns = 3600ull * SEC;
 	p->set("c14_conn_delay_ns", (long) cfg->conn_delay_max_ns);
 	p->set("c14_lat_max_ns", (long) cfg->lat_max_ns);
-	p->set("c14_accept_faults", cfg->accept_err_p > 0 ? 1 : 0);
+	// either fault makes a dial to a reachable listener fail through no fault of the library: clause C (a pipe
+	// within one redial period of the listener becoming reachable) is not asserted then
+	p->set("c14_accept_faults", (cfg->accept_err_p > 0 || cfg->unix_backlog_full_p > 0) ? 1 : 0);
 }
 
 SCENARIO(c14_events, "C14", events_cfg, events_run);
